@@ -37,7 +37,7 @@ CONFIGS = {
     'x-py-gran900': ('extended', 'python', 'zonedb,tzdb', 2000, 2050, ['--granularity', '900']),
     'b-py-gran1': ('basic', 'python', 'zonedb,tzdb,zonelist', 1990, 2050, ['--until_at_granularity', '1', '--offset_granularity', '1']),
 }
-QUICK = ['x-ar-2050', 'b-ar-2050', 'x-py-2050', 'b-py-2038']
+QUICK = ['x-ar-2050', 'b-ar-2050', 'x-py-2050', 'b-py-2038', 'x-ar-strings', 'b-ar-strict', 'b-py-gran1']
 
 TZS = ['UTC', 'America/Los_Angeles', 'Asia/Kolkata', 'Pacific/Kiritimati', 'Europe/London']
 LANGS = ['C', 'C.UTF-8', 'POSIX', 'en_US.UTF-8', 'tr_TR.UTF-8']
@@ -153,7 +153,7 @@ def run(prop, tier, verif_seed):
     t0 = time.time()
     repo = B.REPO
     cfgs = QUICK if tier == 'quick' else sorted(CONFIGS)
-    nruns = 12 if tier == 'quick' else 160
+    nruns = 8 if tier == 'quick' else 160
     root = tempfile.mkdtemp(prefix='detcompile-')
     violations = 0
     exit_code = 0
